@@ -300,6 +300,21 @@ fn build_threaded_choice_block_no_label(
 
     let g_name = format!("g-{}", *next_choice_index);
     let continuation_path_abs = joined_path(&block_scope.path, &g_name);
+    // the label pre-scan assumed these containers directly under `scope.path`
+    {
+        let mut relocated = context.relocated_containers.borrow_mut();
+        for offset in 0..choices.len() {
+            let name = format!("c-{}", *next_choice_index + offset);
+            relocated.push((
+                joined_path(&scope.path, &name),
+                joined_path(&block_scope.path, &name),
+            ));
+        }
+        relocated.push((
+            joined_path(&scope.path, &g_name),
+            continuation_path_abs.clone(),
+        ));
+    }
 
     let continuation_scope = block_scope.continuation(&g_name);
     let continuation_body = match continuation.first() {
